@@ -159,9 +159,12 @@ Print Assumptions C16_lone_star_true.
 Require Verif.Tie.Vers.Code.
 Require Verif.Tie.Vers.Constraints.
 Require Verif.Tie.Vers.CoreAlternating.
+Require Verif.Tie.Vers.CoreContains.
 Require Verif.Tie.Vers.CoreDispatch.
 Require Verif.Tie.Vers.CoreGroup.
+Require Verif.Tie.Vers.CoreGroupLen.
 Require Verif.Tie.Vers.CoreGroupTie.
+Require Verif.Tie.Vers.CoreNormalize.
 Require Verif.Tie.Vers.CoreToRanges.
 Require Verif.Tie.Vers.Printers.
 Require Verif.Tie.Vers.Pypi.
@@ -176,18 +179,28 @@ Definition C16_tie_parseConstraints_finished := @Verif.Tie.Vers.Constraints.pars
 Definition C16_tie_parseConstraints_normalize := @Verif.Tie.Vers.Constraints.parseConstraints_normalize.
 Definition C16_tie_alternatingIntervals_no_panic := @Verif.Tie.Vers.CoreAlternating.alternatingIntervals_no_panic.
 Definition C16_tie_alternatingIntervals_total := @Verif.Tie.Vers.CoreAlternating.alternatingIntervals_total.
+Definition C16_tie_printers_len := @Verif.Tie.Vers.CoreContains.printers_len.
+Definition C16_tie_printers_len' := @Verif.Tie.Vers.CoreContains.printers_len'.
+Definition C16_tie_contains_tie := @Verif.Tie.Vers.CoreContains.contains_tie.
+Definition C16_tie_toRanges_no_panic := @Verif.Tie.Vers.CoreContains.toRanges_no_panic.
+Definition C16_tie_contains_no_panic := @Verif.Tie.Vers.CoreContains.contains_no_panic.
 Definition C16_tie_isPyPIPrerelease_tie := @Verif.Tie.Vers.CoreDispatch.isPyPIPrerelease_tie.
 Definition C16_tie_pypiContains_tie := @Verif.Tie.Vers.CoreDispatch.pypiContains_tie.
 Definition C16_tie_Contains_tie := @Verif.Tie.Vers.CoreDispatch.Contains_tie.
 Definition C16_tie_Contains_no_panic := @Verif.Tie.Vers.CoreDispatch.Contains_no_panic.
 Definition C16_tie_groupConstraintsIntoIntervals_no_panic := @Verif.Tie.Vers.CoreGroup.groupConstraintsIntoIntervals_no_panic.
 Definition C16_tie_groupConstraintsIntoIntervals_total := @Verif.Tie.Vers.CoreGroup.groupConstraintsIntoIntervals_total.
+Definition C16_tie_ensures_finished := @Verif.Tie.Vers.CoreGroupLen.ensures_finished.
 Definition C16_tie_alternatingIntervals_tie := @Verif.Tie.Vers.CoreGroupTie.alternatingIntervals_tie.
 Definition C16_tie_alternatingIntervals_tie_finished := @Verif.Tie.Vers.CoreGroupTie.alternatingIntervals_tie_finished.
 Definition C16_tie_groupConstraintsIntoIntervals_tie := @Verif.Tie.Vers.CoreGroupTie.groupConstraintsIntoIntervals_tie.
 Definition C16_tie_groupConstraintsIntoIntervals_tie_finished := @Verif.Tie.Vers.CoreGroupTie.groupConstraintsIntoIntervals_tie_finished.
+Definition C16_tie_normalizeConstraints_no_panic := @Verif.Tie.Vers.CoreNormalize.normalizeConstraints_no_panic.
+Definition C16_tie_collect_tie := @Verif.Tie.Vers.CoreNormalize.collect_tie.
+Definition C16_tie_ccmp_le_total := @Verif.Tie.Vers.CoreNormalize.ccmp_le_total.
+Definition C16_tie_normalize_go_tie := @Verif.Tie.Vers.CoreNormalize.normalize_go_tie.
+Definition C16_tie_normalizeConstraints_tie := @Verif.Tie.Vers.CoreNormalize.normalizeConstraints_tie.
 Definition C16_tie_toRanges_tie := @Verif.Tie.Vers.CoreToRanges.toRanges_tie.
-Definition C16_tie_toRanges_no_panic := @Verif.Tie.Vers.CoreToRanges.toRanges_no_panic.
 Definition C16_tie_toRanges_normalize := @Verif.Tie.Vers.CoreToRanges.toRanges_normalize.
 Definition C16_tie_alpine_printer_tie := @Verif.Tie.Vers.Printers.alpine_printer_tie.
 Definition C16_tie_cargo_printer_tie := @Verif.Tie.Vers.Printers.cargo_printer_tie.
@@ -213,6 +226,6 @@ Definition C16_tie_valid_tie := @Verif.Tie.Vers.Valid.valid_tie.
 Definition C16_tie_valid_finished := @Verif.Tie.Vers.Valid.valid_finished.
 Definition C16_tie_scheme_tie := @Verif.Tie.Vers.Valid.scheme_tie.
 Definition C16_tie_scheme_finished := @Verif.Tie.Vers.Valid.scheme_finished.
-Definition C16_ties_all := (C16_tie_Contains_no_panic, (C16_tie_Contains_tie, (C16_tie_alpine_printer_tie, (C16_tie_alternatingIntervals_no_panic, (C16_tie_alternatingIntervals_tie, (C16_tie_alternatingIntervals_tie_finished, (C16_tie_alternatingIntervals_total, (C16_tie_cargo_printer_tie, (C16_tie_constraintsIncludePrerelease_finished, (C16_tie_constraintsIncludePrerelease_tie, (C16_tie_containsPrereleaseMarkers_finished, (C16_tie_containsPrereleaseMarkers_tie, (C16_tie_debian_printer_tie, (C16_tie_ensureVPrefix_tie, (C16_tie_gem_printer_tie, (C16_tie_golang_printer_tie, (C16_tie_groupConstraintsIntoIntervals_no_panic, (C16_tie_groupConstraintsIntoIntervals_tie, (C16_tie_groupConstraintsIntoIntervals_tie_finished, (C16_tie_groupConstraintsIntoIntervals_total, (C16_tie_isPyPIPrerelease_tie, (C16_tie_maven_printer_tie, (C16_tie_npm_printer_tie, (C16_tie_nuget_printer_tie, (C16_tie_parseConstraint_finished, (C16_tie_parseConstraint_tie, (C16_tie_parseConstraints_finished, (C16_tie_parseConstraints_normalize, (C16_tie_parseConstraints_tie, (C16_tie_printers_keys, (C16_tie_printers_match_style_table, (C16_tie_printers_on_model_interval, (C16_tie_printers_texts, (C16_tie_printers_texts_normalize, (C16_tie_pypiContains_tie, (C16_tie_pypi_printer_tie, (C16_tie_rpm_printer_tie, (C16_tie_scheme_finished, (C16_tie_scheme_tie, (C16_tie_semver_printer_tie, (C16_tie_shouldMergeConstraints_tie, (C16_tie_toRanges_no_panic, (C16_tie_toRanges_normalize, (C16_tie_toRanges_tie, (C16_tie_valid_finished, C16_tie_valid_tie))))))))))))))))))))))))))))))))))))))))))))).
+Definition C16_ties_all := (C16_tie_Contains_no_panic, (C16_tie_Contains_tie, (C16_tie_alpine_printer_tie, (C16_tie_alternatingIntervals_no_panic, (C16_tie_alternatingIntervals_tie, (C16_tie_alternatingIntervals_tie_finished, (C16_tie_alternatingIntervals_total, (C16_tie_cargo_printer_tie, (C16_tie_ccmp_le_total, (C16_tie_collect_tie, (C16_tie_constraintsIncludePrerelease_finished, (C16_tie_constraintsIncludePrerelease_tie, (C16_tie_containsPrereleaseMarkers_finished, (C16_tie_containsPrereleaseMarkers_tie, (C16_tie_contains_no_panic, (C16_tie_contains_tie, (C16_tie_debian_printer_tie, (C16_tie_ensureVPrefix_tie, (C16_tie_ensures_finished, (C16_tie_gem_printer_tie, (C16_tie_golang_printer_tie, (C16_tie_groupConstraintsIntoIntervals_no_panic, (C16_tie_groupConstraintsIntoIntervals_tie, (C16_tie_groupConstraintsIntoIntervals_tie_finished, (C16_tie_groupConstraintsIntoIntervals_total, (C16_tie_isPyPIPrerelease_tie, (C16_tie_maven_printer_tie, (C16_tie_normalizeConstraints_no_panic, (C16_tie_normalizeConstraints_tie, (C16_tie_normalize_go_tie, (C16_tie_npm_printer_tie, (C16_tie_nuget_printer_tie, (C16_tie_parseConstraint_finished, (C16_tie_parseConstraint_tie, (C16_tie_parseConstraints_finished, (C16_tie_parseConstraints_normalize, (C16_tie_parseConstraints_tie, (C16_tie_printers_keys, (C16_tie_printers_len, (C16_tie_printers_len', (C16_tie_printers_match_style_table, (C16_tie_printers_on_model_interval, (C16_tie_printers_texts, (C16_tie_printers_texts_normalize, (C16_tie_pypiContains_tie, (C16_tie_pypi_printer_tie, (C16_tie_rpm_printer_tie, (C16_tie_scheme_finished, (C16_tie_scheme_tie, (C16_tie_semver_printer_tie, (C16_tie_shouldMergeConstraints_tie, (C16_tie_toRanges_no_panic, (C16_tie_toRanges_normalize, (C16_tie_toRanges_tie, (C16_tie_valid_finished, C16_tie_valid_tie))))))))))))))))))))))))))))))))))))))))))))))))))))))).
 Print Assumptions C16_ties_all.
 (* ====== ties to the source: END ====== *)
